@@ -425,3 +425,32 @@ def touched_after_copy(P, body, local):
                 touched.append(P.rel(s2["sp"]))
         rl = nxt
     return touched
+
+
+
+def final_aggs(P, body, adt_suffix):
+    """find_aggs, minus the aggregates that only serve as the base of a struct update (`S { a: .., ..template(..) }`): a value built
+    here whose fields are then copied one by one into another aggregate of the same type is an intermediate, not a result"""
+    aggs = list(find_aggs(P, adt_suffix, [body]))
+    if len(aggs) < 2:
+        return aggs
+    feeders = set()
+    for _, bb, idx, st in aggs:
+        for o in st["rv"]["ops"]:
+            pl = op_place(o)
+            if pl is not None and len(pl) == 2 and isinstance(pl[1], str) and pl[1].startswith("."):
+                feeders.add(pl[0])
+    for _ in range(4):          # ... also through whole moves (a spliced helper's result local)
+        for _, _, st in body.stmts():
+            rv = st.get("rv")
+            if rv and rv["k"] == "use" and len(st["p"]) == 1 and st["p"][0] in feeders:
+                src = op_place(rv["op"])
+                if src is not None and len(src) == 1:
+                    feeders.add(src[0])
+    out = []
+    for a in aggs:
+        dst = a[3]["p"]
+        if len(dst) == 1 and dst[0] in feeders:
+            continue
+        out.append(a)
+    return out or aggs
